@@ -78,7 +78,7 @@ def selftest_table():
             continue
         sd = c.get("seeded_changes", {})
         rows.append(f"| {p} | {s['mutation_sites_total']} | {s['mutants_run']} | {s['killed_by_violation']} | {s['refused_as_analysis_error']} | {s['survived']} | "
-                    f"{s['refactor_variants_run']} | {s['refactor_variants_silent']} | {sum(1 for v in sd.values() if v.startswith('reported'))}/{len(sd)} |")
+                    f"{s['refactor_variants_run']} | {s['refactor_variants_silent']} | {sum(1 for v in sd.values() if v.startswith('reported'))}/{len(sd)}" + (f" (+{sum(1 for v in sd.values() if v.startswith('refused'))} refused)" if any(v.startswith('refused') for v in sd.values()) else "") + f" |")
     return "\n".join(rows)
 
 
